@@ -145,6 +145,20 @@ func ruleDDispatch(p *Program, r *Reporter) {
 			}
 		}
 	}
+	// which helper each base reaches (first successful single-call path), to detect two operations sharing a helper
+	helperOfBase := map[string]string{}
+	for _, n := range names {
+		nf := all[n]
+		if nf == nil {
+			continue
+		}
+		base, _ := nodeBase(n)
+		for _, pf := range nf.paths {
+			if (pf.Err == "" || strings.HasPrefix(pf.Err, "h")) && len(pf.Calls) == 1 && helperOfBase[base] == "" {
+				helperOfBase[base] = pf.Calls[0].Fn.Name()
+			}
+		}
+	}
 	for _, n := range names {
 		nf := all[n]
 		if nf == nil {
@@ -234,6 +248,16 @@ func ruleDDispatch(p *Program, r *Reporter) {
 			w := map[string]bool{}
 			for _, l := range want {
 				w[strings.ReplaceAll(l, "P(", truthPred+"(")] = true
+			}
+			// other single-argument predicates (the number test of unary plus) may be called anything
+			if n == "AssertNumberNode" {
+				if qf := p.RoleFunc("evaluator", "", "isNumber"); qf != nil && qf.Name() != "isNumber" {
+					w2 := map[string]bool{}
+					for l := range w {
+						w2[strings.ReplaceAll(l, "isNumber(", qf.Name()+"(")] = true
+					}
+					w = w2
+				}
 			}
 			bad := false
 			for _, l := range keysOfSet(lines) {
@@ -350,8 +374,23 @@ func ruleDDispatch(p *Program, r *Reporter) {
 				break
 			}
 			if !nameImplements(hname, base) {
-				bad = "dispatches to " + hname + " which does not implement " + base
-				break
+				// a helper may be called anything; it must not be the helper of another operation (by the words of its
+				// name, or because another node type with a different base already dispatches to it)
+				other := ""
+				for _, n2 := range names {
+					b2, _ := nodeBase(n2)
+					if b2 == base || inlineNodes[b2] || sharesHelper(b2, base) {
+						continue
+					}
+					// shared with another operation, or named after another operation whose own helper is not
+					if helperOfBase[b2] == hname || (nameImplements(hname, b2) && helperOfBase[b2] != "" && !nameImplements(helperOfBase[b2], b2)) {
+						other = b2
+					}
+				}
+				if other != "" {
+					bad = "dispatches to " + hname + ", the helper of " + other + ", which does not implement " + base
+					break
+				}
 			}
 			if neg != (base == "NotEqual") {
 				bad = "wrong polarity: only != negates its helper's result"
@@ -470,4 +509,16 @@ func ruleDDispatch(p *Program, r *Reporter) {
 	} else {
 		r.OK(pos, "truth predicate", truthPred+" decides !, && and ||")
 	}
+}
+
+
+// sharesHelper: two node bases that are specified to use the same helper.
+func sharesHelper(a, b string) bool {
+	pairs := [][2]string{{"Equal", "NotEqual"}, {"Index", "SmallIndex"}}
+	for _, p := range pairs {
+		if (a == p[0] && b == p[1]) || (a == p[1] && b == p[0]) {
+			return true
+		}
+	}
+	return false
 }
